@@ -286,6 +286,64 @@ def read_attrs(o, ent):
             'gs': ('refs', 'G', frozenset(x.get_pk() for x in o.gs))}
 
 
+def load_one(kind, label, data, variant, exp_objs, where):
+    """Unpickle one artefact in a db_session of its own and compare; -> (1 if loaded else 0, differences)."""
+    diffs = []
+    tag = '' if variant == 'fresh' else ':into-%s-loaded-collection' % variant.replace('partial', 'partly').replace('full', 'fully')
+    with db_session:
+        if variant != 'fresh':
+            ent, key, attr = label[1]
+            coll = getattr(ENT[ent][key], attr)
+            wanted = sorted(exp_objs[(ent, key)][attr][2], key=repr)
+            if variant == 'full':
+                list(coll)
+            elif len(wanted) < 2:
+                return 0, []                 # nothing can be known "in part"
+            else:
+                ENT[exp_objs[(ent, key)][attr][1]][wanted[0]] in coll      # loads this one member only
+        try:
+            got = pickle.loads(data)
+        except Exception as e:          # noqa
+            return 0, [('C31:pickle:%s:loads-error%s' % (kind, tag), 'pickle.loads of %s %s raised %r' % (label, where, e))]
+        if kind == 'object':
+            objs = [got]
+            want = [label[1]]
+        elif kind == 'query':
+            objs = list(got)
+            want = sorted(k for k in exp_objs if k[0] == 'I')
+            if [('I', o.get_pk()) for o in objs] != want:
+                return 1, [('C31:pickle:query:items', 'unpickled query result %s has %s, expected %s' % (where, objs, want))]
+        else:
+            ent, key, attr = label[1]
+            e = exp_objs[(ent, key)][attr]
+            try:
+                members = frozenset(x.get_pk() for x in got)
+            except Exception as ex:  # noqa
+                return 1, [('C31:pickle:collection:unusable' + tag, 'iterating unpickled %s%r.%s %s raised %r' % (ent, key, attr, where, ex))]
+            if members != e[2]:
+                lost = (ent, attr) in M2M and not members and variant == 'fresh'
+                return 1, [('C31:pickle:collection:many-to-many:members-lost' if lost else 'C31:pickle:collection:%s.%s%s' % (ent, attr, tag),
+                            'pickle.loads(pickle.dumps(%s[%r].%s)) in the next db_session (%s) has the members %s, the database has %s' % (
+                                ent, key, attr, {'fresh': 'nothing loaded before', 'partial': 'after one member was looked up with `in`',
+                                                 'full': 'after the collection was iterated'}[variant],
+                                sorted(members, key=repr), sorted(e[2], key=repr)))]
+            return 1, []
+        for o, k in zip(objs, want):
+            exp = exp_objs[k]
+            try:
+                got_attrs = read_attrs(o, k[0])
+            except Exception as e:   # noqa
+                diffs.append(('C31:pickle:%s:unusable-object' % kind, 'reading the attributes of unpickled %s%r (%s) %s raised %r' % (
+                    k[0], k[1], kind, where, e)))
+                continue
+            for name, e in exp.items():
+                if got_attrs[name] != e:
+                    diffs.append(('C31:pickle:%s:%s.%s' % (kind, k[0], name),
+                                  'unpickled %s%r (%s) %s has %s = %r, the committed state has %r' % (
+                                      k[0], k[1], kind, where, name, got_attrs[name][1:], e[1:])))
+    return 1, diffs
+
+
 def check_pickles(case, pickles, where):
     """pickles: list of (kind, label, bytes | exception); each is loaded in a db_session of its own."""
     exp_objs = {(x['ent'], pk_of(x['pk'])): expected_attrs(x['attrs']) for x in case['objects']}
@@ -297,49 +355,12 @@ def check_pickles(case, pickles, where):
                 continue                        # "has to be stored in DB before it can be pickled": refuses instead
             diffs.append(('C31:pickle:%s:dumps-error' % kind, 'pickle.dumps(%s) %s raised %r' % (label, where, data)))
             continue
-        with db_session:
-            try:
-                got = pickle.loads(data)
-            except Exception as e:          # noqa
-                diffs.append(('C31:pickle:%s:loads-error' % kind, 'pickle.loads of %s %s raised %r' % (label, where, e)))
-                continue
-            loaded += 1
-            if kind == 'object':
-                objs = [got]
-                want = [label[1]]
-            elif kind == 'query':
-                objs = list(got)
-                want = sorted(k for k in exp_objs if k[0] == 'I')
-                if [('I', o.get_pk()) for o in objs] != want:
-                    diffs.append(('C31:pickle:query:items', 'unpickled query result %s has %s, expected %s' % (where, objs, want)))
-                    continue
-            else:
-                ent, key, attr = label[1]
-                e = exp_objs[(ent, key)][attr]
-                try:
-                    members = frozenset(x.get_pk() for x in got)
-                except Exception as ex:  # noqa
-                    diffs.append(('C31:pickle:collection:unusable', 'iterating unpickled %s%r.%s %s raised %r' % (ent, key, attr, where, ex)))
-                    continue
-                if members != e[2]:
-                    lost = (ent, attr) in M2M and not members
-                    diffs.append(('C31:pickle:collection:many-to-many:members-lost' if lost else 'C31:pickle:collection:%s.%s' % (ent, attr),
-                                  'pickle.loads(pickle.dumps(%s[%r].%s)) in the next db_session has the members %s, the database has %s' % (
-                                      ent, key, attr, sorted(members, key=repr), sorted(e[2], key=repr))))
-                continue
-            for o, k in zip(objs, want):
-                exp = exp_objs[k]
-                try:
-                    got_attrs = read_attrs(o, k[0])
-                except Exception as e:   # noqa
-                    diffs.append(('C31:pickle:%s:unusable-object' % kind, 'reading the attributes of unpickled %s%r (%s) %s raised %r' % (
-                        k[0], k[1], kind, where, e)))
-                    continue
-                for name, e in exp.items():
-                    if got_attrs[name] != e:
-                        diffs.append(('C31:pickle:%s:%s.%s' % (kind, k[0], name),
-                                      'unpickled %s%r (%s) %s has %s = %r, the committed state has %r' % (
-                                          k[0], k[1], kind, where, name, got_attrs[name][1:], e[1:])))
+        # a collection is also unpickled into a session that already knows part of it / all of it
+        variants = ['fresh', 'partial', 'full'] if kind == 'collection' else ['fresh']
+        for variant in variants:
+            n, d = load_one(kind, label, data, variant, exp_objs, where)
+            loaded += n
+            diffs += d
     return diffs, loaded
 
 
